@@ -1640,6 +1640,14 @@ func init() {
 		}
 		w.Cfg.LabelEdits = chance(r, 0.3)
 		w.Cfg.PodTplEdits = chance(r, 0.3)
+		if chance(r, 0.12) {
+			// templates pasted from a running pod: they carry the hash annotation of some earlier template
+			for _, e := range w.EDS {
+				for _, t := range e.Templates {
+					t.PastedHash = true
+				}
+			}
+		}
 		if chance(r, 0.25) {
 			// every template also exists in a second spelling of its memory request: another template
 			// for the controller (new hash, new replica set, new PodTemplate content), an equal one semantically
